@@ -209,7 +209,7 @@ def gen_pose(rng, partial=0.3):
     return rot, tr
 
 
-def gen_dataset(rng, present=None, size=None):
+def gen_dataset(rng, present=None, size=None, nested_rigs=False, rig_order=None):
     """A well-formed dataset in plain form.  present: set of part names (None = each with probability 1/2,
     then closed under the format's dependencies); size: max rows per part."""
     import kapture
@@ -275,19 +275,33 @@ def gen_dataset(rng, present=None, size=None):
         by_type.setdefault(st, []).append(sid)
     d['sensors'] = sensors
     sids = [s[0] for s in sensors]
-    # rigs
+    # rigs: members are sensors or other rigs (nested rigs, depth up to 3); the rows of a parent rig may stand
+    # before or after the rows of the rigs it contains (parent-first is what a top-down construction gives)
     rig_ids = []
     if 'rigs' in present:
-        rows = []
+        groups = []
         if sids:
-            for _ in range(rng.randint(0, min(size, 4))):
+            n_rigs = rng.randint(0, min(size, 4)) if not nested_rigs else rng.randint(2, 3)
+            for _ in range(n_rigs):
                 rid = fresh_id()
-                members = rng.sample(sids + rig_ids, rng.randint(1, min(3, len(sids) + len(rig_ids))))
+                pool = list(sids)
+                members = rng.sample(pool, rng.randint(1, min(2, len(pool))))
+                if rig_ids and (nested_rigs or rng.random() < 0.6):
+                    members.insert(rng.randint(0, len(members)), rig_ids[-1])     # contains the previous rig
+                    if len(rig_ids) > 1 and rng.random() < 0.3:
+                        members.append(rig_ids[0])
                 rig_ids.append(rid)
-                for m in members:
+                group = []
+                for m in dict.fromkeys(members):
                     rot, tr = gen_pose(rng)
-                    rows.append([rid, m, rot, tr])
-        d['rigs'] = rows
+                    group.append([rid, m, rot, tr])
+                groups.append(group)
+        order = rig_order or rng.choice(['child-first', 'parent-first', 'shuffled'])
+        if order == 'parent-first':
+            groups.reverse()
+        elif order == 'shuffled':
+            rng.shuffle(groups)
+        d['rigs'] = [row for g in groups for row in g]
     devices = sids + rig_ids
     cur[0] = 'trajectories'
     if 'trajectories' in present:
@@ -891,12 +905,12 @@ def p3d_float_bits(d):
 
 
 # ------------------------------------------------------------------------------------------------ running a data case
-def run_data_case(d, tmp):
+def run_data_case(d, tmp, name='k1'):
     """save with the real kapture_to_dir, load with the real kapture_from_dir, save again.
     Returns observations (JSON-able)."""
     import kapture.io.csv as kcsv
-    root = os.path.join(tmp, 'k1')
-    root2 = os.path.join(tmp, 'k2')
+    root = os.path.join(tmp, name)
+    root2 = os.path.join(tmp, name + '_resaved')
     shutil.rmtree(root, ignore_errors=True)
     shutil.rmtree(root2, ignore_errors=True)
     obs = {'save_exc': None, 'load_exc': None, 'files': None, 'loaded': None, 'resave_files': None, 'resave_exc': None}
@@ -934,6 +948,55 @@ def run_data_case(d, tmp):
     shutil.rmtree(root, ignore_errors=True)
     shutil.rmtree(root2, ignore_errors=True)
     return obs
+
+
+def run_history(steps, tmp, tag=''):
+    """several steps in ONE process over a few reused directory paths.
+       {'op': 'save_load', 'path': i, 'data': d}   judged like a single data case
+       {'op': 'old', 'path': i, 'data': d}         the dataset is written, its files are stamped with format version 1.0
+                                                   and it is loaded (history only: loading older versions is C20's subject)
+       {'op': 'probe', 'path': i}                  kapture_format_version of a directory that does not exist"""
+    import warnings
+    import kapture.io.csv as kcsv
+    out = []
+    for st in steps:
+        name = 'hist%s-%d' % (tag, st['path'])     # paths are private to the history, reused inside it
+        root = os.path.join(tmp, name)
+        if st['op'] == 'save_load':
+            out.append(run_data_case(st['data'], tmp, name))
+        elif st['op'] == 'probe':
+            shutil.rmtree(root, ignore_errors=True)
+            try:
+                out.append({'version': kcsv.kapture_format_version(root), 'exc': None})
+            except Exception as e:
+                out.append({'version': None, 'exc': f'{type(e).__name__}: {e}'[:120]})
+        elif st['op'] == 'old':
+            shutil.rmtree(root, ignore_errors=True)
+            o = {'exc': None}
+            try:
+                os.makedirs(root, exist_ok=True)
+                kcsv.kapture_to_dir(root, build_kapture(st['data']))
+                for dp, _, files in os.walk(root):
+                    for fn in files:
+                        if fn.endswith('.txt'):
+                            fp = os.path.join(dp, fn)
+                            with open(fp, encoding='utf-8', newline='') as f:
+                                t = f.read()
+                            with open(fp, 'w', encoding='utf-8', newline='') as f:
+                                f.write(t.replace('# kapture format: 1.1', '# kapture format: 1.0', 1))
+                with warnings.catch_warnings():
+                    warnings.simplefilter('ignore')
+                    k = kcsv.kapture_from_dir(root)
+                o['sensors'] = len(k.sensors) if k.sensors is not None else None
+            except BaseException as e:
+                if isinstance(e, (KeyboardInterrupt, SystemExit)):
+                    raise
+                o['exc'] = f'{type(e).__name__}: {e}'[:120]
+            shutil.rmtree(root, ignore_errors=True)
+            out.append(o)
+        else:
+            raise KeyError(st['op'])
+    return out
 
 
 def expected_files(d):
